@@ -224,6 +224,37 @@ pub fn exhaustive_single_items() -> Vec<String> {
     out
 }
 
+/// Second exhaustive sub-space: every pair of single values per field (lists of two), and every
+/// (day-of-month, day-of-week) combination with both day fields given (the OR rule), other fields `*`.
+pub fn exhaustive_pairs() -> Vec<String> {
+    let mut out = Vec::new();
+    for idx in 0..5 {
+        let (lo, hi) = (LO[idx], HI[idx]);
+        let vhi = if idx == 4 { 7 } else { hi };
+        for a in lo..=vhi {
+            for b in a + 1..=vhi {
+                out.push(with_field(idx, &format!("{},{}", a, b)));
+            }
+        }
+    }
+    for d in 1..=31u32 {
+        for w in 0..=7u32 {
+            out.push(format!("* * {} * {}", d, w));
+        }
+    }
+    // a range next to a step in one list, per field (overlapping items)
+    for idx in 0..5 {
+        let (lo, hi) = (LO[idx], HI[idx]);
+        for s in [2u32, 3, 5, 7] {
+            if s <= hi + 1 {
+                out.push(with_field(idx, &format!("{}-{},*/{}", lo, (lo + hi) / 2, s)));
+                out.push(with_field(idx, &format!("*/{},{}", s, hi)));
+            }
+        }
+    }
+    out
+}
+
 pub const MUT_ALPHABET: &[char] = &[
     '0', '1', '2', '3', '5', '7', '9', '*', '/', ',', '-', '+', ' ', '\t', 'a', 'j', 'n', 's', 'u',
     'z', 'A', 'M', 'é', '.',
